@@ -518,6 +518,9 @@ func (x *Exec) toIface(v AV, T types.Type, h *Heap) AV {
 		isJSON := x.c.assertAtoms(T)&AArrays != 0
 		out.obj = v.obj
 		out.bad = v.bad
+		if n, ok := T.(*types.Named); ok && x.c.Prog.MethodSets.MethodSet(n).Len() > 0 {
+			out.dyn = T // a named slice type with methods (a sort adapter of the standard library)
+		}
 		if !isJSON {
 			if v.tri&1 != 0 {
 				out.atoms |= AOther // a nil typed slice
